@@ -528,6 +528,11 @@ func runC01(c *Ctx) {
 	checkElementsThroughCodec(r, p)
 	checkCountNotComparedWithBytes(r, p)
 	checkTrustedHelpers(r, p, []trustedHelper{{Pkg: "serializer/byteutils", Name: "ConcatBytes"}})
+	// SerializableOrderedMap (and ds.Set on top of it) encodes what OrderedMap.ForEach visits and
+	// prefixes it with Size(): chain, dictionary and size of the OrderedMap stay coupled
+	if pds := c.Load("ds"); pds != nil {
+		checkOrderedMapCoupling(r, pds)
+	}
 	// (1) dispatch mirror
 	for _, pair := range [][2]string{{"encodeBasedOnType", "decodeBasedOnType"}, {"mapEncodeBasedOnType", "mapDecodeBasedOnType"}} {
 		enc, dec := p.FuncDecl(pkgSerix, "API", pair[0]), p.FuncDecl(pkgSerix, "API", pair[1])
